@@ -49,14 +49,14 @@ DerivedKinds == <<"begin", "let", "letstar", "cond", "cond2", "cond3", "case", "
 \* the degenerate shapes: one clause, no clause, one body expression, no binding - each is a rule of its own in an
 \* implementation by rewriting, and is reached by a compound (ticking) key/test only when written directly
 SmallKinds == {"case1e", "case1", "case1a", "case1ea", "cond1", "cond1t", "cond1a", "cond1e", "and0", "and1", "or0", "or1",
-               "when1", "unless1", "begin1", "let0", "letstar0", "letstar1", "or2", "and2", "case1l"}
+               "when1", "unless1", "begin1", "let0", "letstar0", "letstar1", "or2", "and2", "case1l", "let0d", "letstar0d"}
 \* number of sub-form positions (holes) of each template
 Holes(k) == CASE k \in {"and0", "or0"} -> 0 [] k \in {"and1", "or1", "begin1", "cond1t", "letstar0", "case1a", "case1ea", "cond1a"} -> 1
-              [] k \in {"case1e", "case1", "cond1", "cond1e", "when1", "unless1", "let0", "letstar1", "or2", "and2", "case1l"} -> 2
+              [] k \in {"case1e", "case1", "cond1", "cond1e", "when1", "unless1", "let0", "letstar1", "or2", "and2", "case1l", "let0d", "letstar0d"} -> 2
               [] k = "begin" -> 3 [] k = "let" -> 3 [] k = "letstar" -> 3 [] k = "cond" -> 5 [] k = "cond2" -> 3 [] k = "cond3" -> 3
               [] k = "case" -> 4 [] k = "case2" -> 3 [] k = "case3" -> 2 [] k = "and" -> 3 [] k = "or" -> 3 [] k = "when" -> 3 [] k = "unless" -> 3
 \* which holes are tests (their truth value is chosen) - the others hold plain values
-TestHoles(k) == CASE k \in {"case1e", "case1", "case1a", "case1ea", "cond1", "cond1t", "cond1a", "and1", "or1", "when1", "unless1", "or2", "and2"} -> {1}
+TestHoles(k) == CASE k \in {"case1e", "case1", "case1a", "case1ea", "cond1", "cond1t", "cond1a", "and1", "or1", "when1", "unless1", "or2", "and2", "let0d", "letstar0d"} -> {1}
                   [] k = "cond" -> {1, 3} [] k = "cond2" -> {1, 2} [] k = "cond3" -> {1, 3} [] k = "and" -> {1, 2} [] k = "or" -> {1, 2}
                   [] k = "when" -> {1} [] k = "unless" -> {1} [] k = "case" -> {1} [] k = "case2" -> {1} [] k = "case3" -> {1} [] OTHER -> {}
 \* the values a test hole may take: #f, and two true values one of which is not a boolean
@@ -95,6 +95,9 @@ Template(k, h, b) ==
     [] k = "or1"     -> Or(<<h[1]>>)
     \* a single datum that is a list, and a key that is a freshly built list of the same shape: eqv? says no
     [] k = "case1l"  -> CaseElse(Call("list", <<Num(1), Num(2)>>), <<CClause(<<MkList(<<MkInt(1), MkInt(2)>>)>>, <<h[1]>>)>>, <<h[2]>>)
+    \* a body that starts with a definition of x: x belongs to this body's own scope, whatever is called x outside
+    [] k = "let0d"   -> [t |-> "let", bs |-> <<>>, defs |-> <<B("x", h[1])>>, body |-> <<Call("list", <<Var("x"), h[2]>>)>>]
+    [] k = "letstar0d" -> [t |-> "letstar", bs |-> <<>>, defs |-> <<B("x", h[1])>>, body |-> <<Call("list", <<Var("x"), h[2]>>)>>]
     [] k = "or2"     -> Or(<<h[1], h[2]>>)
     [] k = "and2"    -> And(<<h[1], h[2]>>)
     [] k = "when1"   -> When(h[1], <<h[2]>>)
@@ -137,7 +140,8 @@ SinglePrograms ==
   UNION {UNION {{[forms |-> <<InContext(c, Single(k, 0, a))>>, tag |-> <<"single", k, c>>] : a \in Assignments(k)}
                 : c \in {"top", "proc"}} : k \in KindSet \cup SmallKinds}
 BinderPrograms ==
-  UNION {UNION {{[forms |-> <<Let(<<B(c, Num(55))>>, <<SingleReading(k, 0, a, c)>>)>>, tag |-> <<"binder", k, c>>] : a \in Assignments(k)}
+  \* (the bound variable is read once more AFTER the form: the form may neither capture nor overwrite it)
+  UNION {UNION {{[forms |-> <<Let(<<B(c, Num(55))>>, <<Call("list", <<SingleReading(k, 0, a, c), Var(c)>>)>>)>>, tag |-> <<"binder", k, c>>] : a \in Assignments(k)}
                 : c \in {"x", "temp", "atom-key"}} : k \in KindSet \cup SmallKinds}
 NestedPrograms(full) ==
   UNION {UNION {UNION {UNION {
